@@ -48,16 +48,66 @@ def check(ctx):
 
 
 # ----------------------------------------------------------------------------- D1
+def _is_abstract(idx, ci):
+    """Does the class still have an abstract method (other than the schema property of the common base)?"""
+    names = set()
+    for q in ci.mro:
+        k = idx.classes.get(q)
+        if k is not None and q.startswith('mitxgraders.attemptcredit'):
+            names |= set(k.methods)
+    for n in names:
+        f = idx.lookup(ci, n)
+        if f is not None and any('abstractmethod' in d for d in f.decorators):
+            return True
+    return False
+
+
+def _expand_self_calls(idx, ci, paths, depth=3):
+    """Template-method support: replace `self.m(args)` in the paths by the paths of the method the concrete class
+    resolves m to (guards are conjoined, the call term is replaced by the callee's return value)."""
+    from ._c12_matrix import rewrite
+    for _ in range(depth):
+        out, changed = [], False
+        for p in paths:
+            terms = list(p.conds) + ([p.value] if p.value is not None else [])
+            calls = [s for t in terms for s in ai.subterms(t) if s[0] == 'meth' and s[1] == ('self',) and not s[4]
+                     and idx.lookup(ci, s[2]) is not None and idx.lookup(ci, s[2]).module.name.startswith('mitxgraders.attemptcredit')]
+            if not calls or p.kind not in ('ret',):
+                out.append(p)
+                continue
+            c = calls[0]
+            callee = idx.lookup(ci, c[2])
+            params = callee.params[1:]
+            if len(params) != len(c[3]) or callee.node.args.vararg or callee.node.args.kwarg:
+                raise Unsupported('cannot bind the arguments of self.%s' % c[2])
+            env = dict(zip(params, c[3]))
+            changed = True
+            for q in ai.sym_exec(idx, callee, env=env):
+                if q.kind == 'ret':
+                    m = {c: q.value}
+                    out.append(ai.SPath([(rewrite(g, m), n) for g, n in p.guards] + list(q.guards), 'ret', rewrite(p.value, m), None,
+                                        q.stmt or p.stmt, p.store, p.env, p.effects, p.closures))
+                    out[-1].fi = callee
+                else:
+                    out.append(ai.SPath(list(p.guards) + list(q.guards), q.kind, None, q.exc, q.stmt or p.stmt, p.store, p.env,
+                                        p.effects, p.closures))
+                    out[-1].fi = callee
+        paths = out
+        if not changed:
+            break
+    return paths
+
+
 class Schedule(object):
     def __init__(self, idx, ci):
         self.ci = ci
-        self.fi = ci.methods['__call__']
+        self.fi = idx.lookup(ci, '__call__')
         if len(self.fi.params) != 2:
             raise AnalysisError('%s.__call__ should take (self, attempt)' % ci.name)
         self.var = self.fi.params[1]
         self.facts = ai.schema_facts(idx, ci)
         self.facts.add(SymFact(self.var, Interval(1, INF), integer=True, samples=[Fraction(1)]))
-        self.paths = ai.sym_exec(idx, self.fi)
+        self.paths = _expand_self_calls(idx, ci, ai.sym_exec(idx, self.fi))
         self.pw = ai.Piecewise([p for p in self.paths if p.kind == 'ret'], self.var, self.facts)
         self.min_key = REVIEWED.get(ci.name)
         self.witness = {}
@@ -171,8 +221,11 @@ def d1_schedules(ctx, idx):
     with r_first:
         module = idx.module(MOD)
         for name, ci in sorted(module.classes.items()):
-            if '__call__' not in ci.methods:
+            call = idx.lookup(ci, '__call__')
+            if call is None or not call.module.name.startswith(MOD):
                 continue
+            if name not in REVIEWED and _is_abstract(idx, ci):
+                continue          # an abstract template base is not a schedule; its concrete subclasses are analysed through it
             if name not in REVIEWED:
                 r_first.undecided(ci.qualname, 'new schedule class that was not reviewed', ci.loc)
                 continue
@@ -443,6 +496,8 @@ def d2_apply(ctx, idx):
         if inverted and not any(p.kind == 'raise' for p in hits):
             r_none.violation(construct, 'the check is inverted: a *supplied* attempt number raises %s and a missing one is used'
                              % inverted[0].exc, lib.loc(fi, inverted[0].stmt), expected='if attempt_number is None: raise ConfigError')
+        elif not hits and idx.unreviewed:
+            r_none.undecided(construct, 'no `is None` check found here; unreviewed helpers remain: %s' % list(idx.unreviewed), fi.loc)
         elif not hits:
             r_none.violation(construct, 'no `is None` check guards the function: grading with attempt-based credit but without '
                              "cfn_extra_args=\"attempt\" no longer ends in the ConfigError that tells the author what is missing",
@@ -496,6 +551,8 @@ def d2_apply(ctx, idx):
                     if arg[0] == 'call' and arg[1] == 'max' and set(arg[2]) == {pN, ai.num(1)} and not arg[3]:
                         r_clamp.ok(construct, 'attempts below 1 count as 1 (max)', where)
                         r_clamp.ok(construct + ' [>= 1]', 'attempts >= 1 are passed unchanged (max)', where)
+                    elif arg == pN and idx.unreviewed:
+                        r_clamp.undecided(construct, 'no clamp found here; unreviewed helpers remain', where)
                     elif arg == pN:
                         r_clamp.violation(construct, 'the attempt number reaches the schedule without the `< 1 -> 1` clamp: '
                                           'attempt 0 or a negative attempt is handed to the schedule (GeometricCredit then returns '
@@ -543,7 +600,9 @@ def d2_apply(ctx, idx):
             if gs:
                 (eq_paths if gs[0][1] == '==' else other).append((p, gs[0]))
         construct = 'apply_attempt_based_credit: credit == 1'
-        if not eq_paths and not other:
+        if not eq_paths and not other and idx.unreviewed:
+            r_one.undecided(construct, 'no `credit == 1` decision found here; unreviewed helpers remain', fi.loc)
+        elif not eq_paths and not other:
             r_one.violation(construct, 'the early return for full credit is gone: on a first attempt every positive grade is '
                             '"changed" (multiplied by 1.0) and the note "Maximum credit for attempt #1 is 100%." is shown although '
                             'nothing was reduced', fi.loc, expected='if credit == 1: return')
@@ -626,7 +685,7 @@ def _entry_body(r, idx, fi, stmts, X, kind, credits, where):
     flags = None
     seen_pos = seen_nonpos = False
     for p in paths:
-        if p.kind != 'fall':
+        if p.kind not in ('fall', 'continue'):
             r.undecided(construct + ': body', 'a path of the per-entry work %s' % p.kind, where)
             continue
         gconds = [c for g in p.conds for c in ai.t_conjuncts(g) if ai.mentions(c, G)]
@@ -754,7 +813,8 @@ def d2_scale(ctx, idx, fi, R, N):
             else:
                 r.undecided('scaling loop: iterable', 'iterable `%s` not recognised' % ai.show(it), where)
                 kinds = []
-            exits = lib.loop_has_early_exit(loop)
+            site_nodes |= {id(x) for b in loop.body for x in ast.walk(b)}
+            exits = [x for x in lib.loop_has_early_exit(loop) if not isinstance(x, ast.Continue)]
             if exits:
                 r.violation('scaling loop: exhaustive', 'the loop over the inputs can stop early (%s): later inputs keep their unscaled grade'
                             % type(exits[0]).__name__, lib.loc(fi, exits[0]))
@@ -861,15 +921,6 @@ def d2_note(ctx, idx, fi, R, N):
                                                   (_is_credit(g[2]) or _is_credit(g[3]))) for g in p.conds)]
         if not live:
             raise AnalysisError('no path reaches the end of apply_attempt_based_credit')
-        if not any(ai.mentions(g, msg_t) for p in live for g in p.conds):
-            has_fmt = any(isinstance(c, ast.Constant) and c.value == NOTE_FORMAT for c in ast.walk(fi.node))
-            if idx.unreviewed:
-                raise AnalysisError("config['attempt_based_credit_msg'] is not consulted here; unreviewed helpers remain")
-            r.violation('apply_attempt_based_credit: note condition', "config['attempt_based_credit_msg'] is no longer consulted: the "
-                        'note is %s' % ('added regardless of the author\'s choice' if has_fmt else 'never added'), fi.loc,
-                        expected="if self.config['attempt_based_credit_msg'] and changed_result")
-            return
-
         def written(p, asg):
             """{key: value term} of the result messages the path extends with the note."""
             out = {}
@@ -940,6 +991,8 @@ def d2_note(ctx, idx, fi, R, N):
             if kind == 'spurious':
                 r.violation('apply_attempt_based_credit: note condition', 'the note is appended although %s: it must be added exactly when the '
                             'option is on AND some grade was reduced' % sit, pr[2], expected="attempt_based_credit_msg and changed_result")
+            elif kind == 'missing' and idx.unreviewed:
+                r.undecided('apply_attempt_based_credit: note condition', 'no note found for %s; unreviewed helpers remain: %s' % (sit, list(idx.unreviewed)), pr[2])
             elif kind == 'missing':
                 r.violation('apply_attempt_based_credit: note condition', 'the note is not appended although %s' % sit, pr[2],
                             expected="attempt_based_credit_msg and changed_result")
@@ -975,12 +1028,13 @@ def _note_text(r, V, cur, pN, credits, want, where, p, okseen):
         return
     pct = len(args) == 2 and any(s[0] == 'mul' and (iscred(s[1]) or iscred(s[2]))
                                  and ai.num(100) in (s[1], s[2]) for s in ai.subterms(args[1]))
-    first_ok = len(args) == 2 and (args[0] == pN or args[0] == ai.num(1))
+    attempts = {pN, ai.num(1)} | {c[3][0] for a in args for c in _schedule_calls(a) if len(c[3]) == 1}
+    first_ok = len(args) == 2 and args[0] in attempts
     if first_ok and pct:
         if want not in okseen:
             okseen.add(want)
             r.ok(label, 'format(attempt, credit*100) appended', where)
-    elif len(args) == 2 and args[1] in (pN, ai.num(1)) and any(iscred(s) for s in ai.subterms(args[0])):
+    elif len(args) == 2 and args[1] in attempts and any(iscred(s) for s in ai.subterms(args[0])):
         r.violation(label, 'the attempt number and the percentage are swapped in the note', where)
     elif first_ok and any(s[0] == 'mul' and (iscred(s[1]) or iscred(s[2])) and (s[1][0] == 'num' or s[2][0] == 'num')
                           for s in ai.subterms(args[1])):
@@ -1003,6 +1057,9 @@ def d3_call(ctx, idx):
         for f, c in elsewhere:
             r.violation('%s: apply_attempt_based_credit' % f.qualname, 'the credit is applied from a second place: a result that also '
                         'passes through AbstractGrader.__call__ is scaled twice', lib.loc(f, c))
+        if not here and (elsewhere or idx.unreviewed):
+            r.undecided('AbstractGrader.__call__', 'apply_attempt_based_credit is not called here (moved?)', fi.loc)
+            return
         if not here:
             r.violation('AbstractGrader.__call__', 'apply_attempt_based_credit is never called: attempt-based credit is ignored', fi.loc)
             return
@@ -1081,6 +1138,11 @@ _SINGLE = """                grade = result['grade_decimal'] * credit
 _GUARDED_CALL = """        if self.config['attempt_based_credit']:
             self.apply_attempt_based_credit(result, kwargs.get('attempt'))"""
 
+_SCALE_OLD = '        changed_result = False\n        if "input_list" in result:\n            for results_dict in result[\'input_list\']:\n                if results_dict[\'grade_decimal\'] > 0:\n                    grade = results_dict[\'grade_decimal\'] * credit\n                    results_dict[\'grade_decimal\'] = grade\n                    results_dict[\'ok\'] = self.grade_decimal_to_ok(grade)\n                    changed_result = True\n        else:\n            if result[\'grade_decimal\'] > 0:\n                grade = result[\'grade_decimal\'] * credit\n                result[\'grade_decimal\'] = grade\n                result[\'ok\'] = self.grade_decimal_to_ok(grade)\n                changed_result = True\n\n'
+_SCALE_UNIFIED = '        entries = result[\'input_list\'] if "input_list" in result else [result]\n        changed_result = 0\n        for entry in entries:\n            if not entry[\'grade_decimal\'] > 0:\n                continue\n            scaled = entry[\'grade_decimal\'] * credit\n            entry[\'grade_decimal\'] = scaled\n            entry[\'ok\'] = self.grade_decimal_to_ok(scaled)\n            changed_result += 1\n\n'
+_NOTE_OLD = '        if self.config[\'attempt_based_credit_msg\'] and changed_result:\n            credit_decimal = Decimal(credit * 100).quantize(Decimal(\'.1\'))\n            if credit_decimal == int(credit_decimal):\n                # Used to get rid of .0 appearing in percentages\n                credit_decimal = int(credit_decimal)\n            msg = "Maximum credit for attempt #{} is {}%."\n            if "input_list" in result:\n                key = \'overall_message\'\n            else:\n                key = \'msg\'\n            if result[key]:\n                result[key] += \'\\n\\n\'\n            result[key] += msg.format(attempt_number, credit_decimal)\n\n'
+_NOTE_EARLY_RETURN = '        if not self.config[\'attempt_based_credit_msg\'] or not changed_result:\n            return\n        credit_decimal = Decimal(credit * 100).quantize(Decimal(\'.1\'))\n        if credit_decimal == int(credit_decimal):\n            credit_decimal = int(credit_decimal)\n        key = \'overall_message\' if "input_list" in result else \'msg\'\n        if result[key]:\n            result[key] += \'\\n\\n\'\n        result[key] += f"Maximum credit for attempt #{attempt_number} is {credit_decimal}%."\n\n'
+
 MUTANTS = [
     Mutant('linear-sign', CREDIT, "credit = 1 + (min_cred - 1) * steps / decrease_steps", "credit = 1 - (min_cred - 1) * steps / decrease_steps", 'D1'),
     Mutant('linear-divisor', CREDIT, "credit = 1 + (min_cred - 1) * steps / decrease_steps", "credit = 1 + (min_cred - 1) * steps / (decrease_steps + 1)", 'D1'),
@@ -1126,6 +1188,8 @@ MUTANTS = [
 ]
 
 BENIGN = [
+    Benign('scaling-unified-loop-with-counter', BASE, _SCALE_OLD, _SCALE_UNIFIED),
+    Benign('note-early-return-fstring-conditional-key', BASE, _NOTE_OLD, _NOTE_EARLY_RETURN),
     Benign('ok-from-stored-grade', BASE, "                result['ok'] = self.grade_decimal_to_ok(grade)", "                result['ok'] = self.grade_decimal_to_ok(result['grade_decimal'])"),
     Benign('linear-breakpoints-closed-on-the-other-side', CREDIT, "        if steps >= decrease_steps:", "        if steps > decrease_steps:"),
     Benign('linear-first-breakpoint-strict', CREDIT, "        if steps <= 0:\n            return 1", "        if steps < 0:\n            return 1"),
